@@ -20,7 +20,7 @@ LEVEL_TEXT = ('for each of 12 (thorough; the other 32 with 2-option menus) logic
               'row-name case, interleaving, channel, raw) is rendered and parsed; every parse must equal the document')
 LEVEL_NOTE = ('covers only the enumerated documents and layout menus; pair placement is coupled to the blank-line menu and number format to the array-notation menu; '
               'trusted: the renderer/expected-value code in mc/props/c02.py, numpy')
-RULE = ('document x layout product, layouts in lexicographic order of the menus (simplest first). Non-trivial: the rendering differs from the canonical '
+RULE = ('history shards: two documents with equal structure/column names but different column types read alternately in one process through every channel; document x layout product, layouts in lexicographic order of the menus (simplest first). Non-trivial: the rendering differs from the canonical '
         'rendering of its document (layout index != 0) or is the canonical one of a document (one per document). Distinct: (document id, layout tuple).')
 ASSUMPTIONS = ['comment text contains no quote, #, brace or semicolon (documented pathological cases)',
                'brace-wrapped strings have no leading/trailing blanks, braces or #; array elements are bare or double-quoted',
@@ -52,7 +52,7 @@ ENUM = {'name': 'COLORS', 'labels': ['RED', 'GREEN_X', 'B']}
 STRUCTS = {
     'A': {'name': 'AB', 'cols': [['ival', 'int'], ['fval', 'float'], ['name', 'char[8]']]},
     'B': {'name': 'ABC', 'cols': [['dval', 'double'], ['tag', 'char[]'], ['arr', 'int[2]']]},
-    'C': {'name': 'flux', 'cols': [['lval', 'long'], ['sval', 'short'], ['farr', 'float[2]']]},
+    'C': {'name': 'flux', 'cols': [['lval', 'long'], ['sval', 'short'], ['farr', 'float[2]'], ['larr', 'long[2]']]},
     'D': {'name': 'MyStruct', 'cols': [['names', 'char[2][4]'], ['free', 'char[2][]'], ['color', 'COLORS']]},
     'E': {'name': 'T', 'cols': [['flux', 'float'], ['label', 'char[6]']]},
 }
@@ -61,8 +61,9 @@ ROWS = {   # two row sets per struct
           [[-1, float('nan'), ''], [0, 0.1, '#x'], [-2147483648, -0.0, "it's"]]],
     'B': [[[1.0 / 3.0, 'a;b', [1, -2]]],
           [[float('-inf'), '', [0, 2147483647]], [5e-324, ' lead', [-2147483648, 7]], [1.5, 'x\\y', [3, 4]]]],
-    'C': [[[9223372036854775807, -32768, [0.5, float('inf')]]],
-          [[-9223372036854775808, 32767, [1e-45, -0.0]], [0, -1, [float('nan'), 0.1]]]],
+    'C': [[[9223372036854775807, -32768, [0.5, float('inf')], [2 ** 53 + 1, -9223372036854775808]]],
+          [[-9223372036854775808, 32767, [1e-45, -0.0], [9223372036854775807, 1237648720693755918]],
+           [0, -1, [float('nan'), 0.1], [-(2 ** 53 + 1), 0]]]],
     'D': [[[['ab', ''], ['x y', 'q'], 'GREEN_X']],
           [[['', 'a#b'], ['', "it's"], 'B'], [['abcd', 'a;b'], ['a{b', 'zz zz'], 'RED']]],
     'E': [[[0.25, 'a{b}c']],
@@ -92,6 +93,13 @@ def documents():
 
 
 DOCS = documents()
+# two documents with the SAME structure and column names but different column types: read alternately in one process
+HIST_DOCS = [
+    {'id': 'hx1', 'pairs': [['k', 'v 1']], 'enums': [], 'structs': [{'name': 'OBS', 'cols': [['id', 'int'], ['val', 'float[2]'], ['tag', 'char[6]']]}],
+     'rows': [[0, [7, [0.5, 1.5], 'ab']], [0, [-1, [0.1, float('inf')], 'c d']]]},
+    {'id': 'hx2', 'pairs': [['k', 'v 2']], 'enums': [], 'structs': [{'name': 'OBS', 'cols': [['id', 'double'], ['val', 'long'], ['tag', 'char[2][3]']]}],
+     'rows': [[0, [0.1, 2 ** 40, ['x', 'yz']]], [0, [-2.5, -7, ['', 'q r']]]]},
+]
 QUICK_DOCS = [d for d in DOCS if d['id'].endswith('_r1_p1') or d['id'].endswith('D_r0_p0')]
 
 
@@ -364,6 +372,8 @@ def tasks(tier):
     t = []
     plan = [(d, 'quick') for d in QUICK_DOCS] if tier == 'quick' else \
            [(d, 'thorough') for d in QUICK_DOCS] + [(d, 'quick') for d in DOCS if d not in QUICK_DOCS]
+    for chan in ('path', 'text', 'binary'):
+        t.append({'history': True, 'chan': chan})
     for d, mt in plan:
         m = dict(menus(mt))
         for eol in m['eol']:
@@ -373,7 +383,29 @@ def tasks(tier):
     return t
 
 
+def run_history(task):
+    """Documents with equal structure/column names but different types, read one after the other in the same process."""
+    acc = Acc()
+    canon = {k: v[0] for k, v in MENUS}
+    with Y.TempDir() as d:
+        for raw in (False, True):
+            for eol in ('\n', '\r\n'):
+                for order in ([0, 1, 0], [1, 0, 1], [0, 0, 1], [1, 1, 0]):
+                    lay = dict(canon, chan=task['chan'], raw=raw, eol=eol)
+                    for step, di in enumerate(order):
+                        doc = HIST_DOCS[di]
+                        bad = check_one(doc, lay, d)
+                        case = {'history': [HIST_DOCS[j]['id'] for j in order[:step + 1]], 'layout': lay}
+                        acc.case(('hist', task['chan'], raw, eol, tuple(order), step), True,
+                                 'ok:history:%s' % task['chan'] if not bad else 'bad:' + bad[0][0], sample=case)
+                        for sig, msg in bad:
+                            acc.violation('history:' + sig, case, msg)
+    return acc
+
+
 def run_task(task):
+    if task.get('history'):
+        return run_history(task)
     acc = Acc()
     doc = [d for d in DOCS if d['id'] == task['doc']][0]
     ms = menus(task['tier'])
@@ -393,6 +425,12 @@ def run_task(task):
 
 
 def replay(case):
+    if 'history' in case:
+        out = []
+        with Y.TempDir() as d:
+            for did in case['history']:
+                out = check_one([x for x in HIST_DOCS if x['id'] == did][0], case['layout'], d)
+        return [('history:' + s, m) for s, m in out]
     doc = [d for d in DOCS if d['id'] == case['doc']][0]
     with Y.TempDir() as d:
         return check_one(doc, case['layout'], d)
